@@ -728,12 +728,15 @@ pub fn main(env: &Env) -> i32 {
 
 pub fn miri_main(args: &[String]) -> i32 {
     let wseed: u64 = arg_value(args, "--wseed").and_then(|s| s.parse().ok()).unwrap_or(1);
+    if arg_value(args, "--mode").as_deref() == Some("crowd") {
+        return miri_crowd(wseed, arg_value(args, "--threads").and_then(|s| s.parse().ok()).unwrap_or(12));
+    }
     let hammer: usize = arg_value(args, "--hammer").and_then(|s| s.parse().ok()).unwrap_or(24);
     let n_threads: usize = arg_value(args, "--threads").and_then(|s| s.parse().ok()).unwrap_or(3);
     let mut rng = Rng::new(run_seed(wseed, "C20.miri", 0));
     // small but non-trivial mapping: three classes, an inline group, overloads, a source file
     let mapping: Vec<u8> = if wseed % 2 == 0 {
-        b"com.example.Foo -> a.a:\n# {\"id\":\"sourceFile\",\"fileName\":\"Foo.kt\"}\n    1:3:void run():10:12 -> a\n    4:4:void x.Y.inl():7:7 -> a\n    4:4:void go(int):20 -> a\n    void go(int,int) -> b\ncom.example.Bar -> a.b:\n    5:9:int calc(java.lang.String):30:34 -> a\n    void <init>() -> <init>\ncom.example.Baz -> a.c:\n    1:1:void z():1:1 -> a\n".to_vec()
+        b"com.example.Foo -> a.a:\n# {\"id\":\"sourceFile\",\"fileName\":\"Foo.kt\"}\n    1:3:void run():10:12 -> a\n    4:4:void x.Y.inl():7:7 -> a\n    4:4:void go(int):20 -> a\n    void go(int,int) -> b\ncom.example.Bar -> a.b:\n    5:9:int calc(java.lang.String):30:34 -> a\n    void <init>() -> <init>\ncom.example.Baz -> a.c:\n    1:1:void z():1:1 -> a\ncom.example.Big -> a.d:\n    1:1:void same():1:1 -> z\n    2:2:void same():2:2 -> z\n    3:3:void same():3:3 -> z\n    4:4:void same():4:4 -> z\n    5:5:void same():5:5 -> z\n    6:6:void same():6:6 -> z\n    7:7:void same():7:7 -> z\n    8:8:void other():8:8 -> z\n    1:1:void uniq():1:1 -> u\n    2:2:void uniq():2:2 -> u\n    3:3:void uniq():3:3 -> u\n    4:4:void uniq():4:4 -> u\n    5:5:void uniq():5:5 -> u\n    6:6:void uniq():6:6 -> u\n    7:7:void uniq():7:7 -> u\n".to_vec()
     } else {
         let mut m = gen::gen_case(&mut rng, 4, 4).1;
         if crate::universe::scan(&m).iter().filter(|c| !c.methods.is_empty()).count() < 2 {
@@ -830,6 +833,31 @@ pub fn miri_main(args: &[String]) -> i32 {
         })
         .collect();
 
+    // ---- phase 0 material: the SAME queries in the SAME order on every thread, behind a barrier, on
+    // entries with rich structure (many lines, ambiguity that shows late, inline groups): races on the
+    // FIRST use of lazily computed per-entry or per-handle state need exactly this.
+    let mut first_use: Vec<Job> = Vec::new();
+    let rich: Vec<&crate::universe::ClassInfo> = {
+        let mut v: Vec<&crate::universe::ClassInfo> = classes.iter().collect();
+        v.sort_by_key(|c| std::cmp::Reverse(c.methods.values().map(|m| m.ranges.len()).max().unwrap_or(0)));
+        v.into_iter().take(2).collect()
+    };
+    for t in [Target::Mapper, Target::MapperParams, Target::Cache] {
+        for c in &rich {
+            let mut ms: Vec<(&String, &crate::universe::MethodInfo)> = c.methods.iter().collect();
+            ms.sort_by_key(|(_, mi)| std::cmp::Reverse(mi.ranges.len()));
+            for (m, mi) in ms.into_iter().take(2) {
+                first_use.push(Job { set: 0, target: t, q: Query::Method(c.obf.clone(), m.clone()) });
+                let line = mi.ranges.last().map(|r| r.0).unwrap_or(1);
+                first_use.push(Job { set: 0, target: t, q: Query::FrameLine { class: c.obf.clone(), method: m.clone(), line, file: None } });
+                first_use.push(Job { set: 0, target: t, q: Query::FrameParams { class: c.obf.clone(), method: m.clone(), params: mi.args.first().cloned().unwrap_or_default() } });
+            }
+        }
+    }
+    let first_use = &first_use;
+    let barrier = std::sync::Barrier::new(n_threads);
+    let barrier = &barrier;
+
     let Some(shared) = Shared::build(inputs) else {
         println!("MIRI-C20 harness: cannot build handles");
         return 2;
@@ -837,7 +865,7 @@ pub fn miri_main(args: &[String]) -> i32 {
     let shared = ForceShare(shared);
     let batches = &batches;
     let probes = &probes;
-    type Out = (String, Option<String>, Vec<String>);
+    type Out = (String, Option<String>, Vec<String>, Vec<String>);
     let results: Vec<Out> = std::thread::scope(|s| {
         let hs: Vec<_> = (0..n_threads)
             .map(|me| {
@@ -845,8 +873,12 @@ pub fn miri_main(args: &[String]) -> i32 {
                 s.spawn(move || -> Out {
                     let sh_all = shared.get();
                     let sh = &sh_all.sets[0];
+                    // 0. everybody starts together
+                    barrier.wait();
                     // 1. first use of the lazily initialised UUID namespace, concurrently
                     let uuid = api::answer_mapping(&sh.mapping, &Query::MapUuid);
+                    // 1b. synchronised first use of rich entries: same queries, same order, all threads
+                    let first_answers = first_use.iter().map(|j| answer_job(sh_all, j, &mut || {})).collect::<Vec<String>>();
                     // 2. hammer: cheap calls on "my" class while the other threads hammer theirs
                     let mut bad: Option<String> = None;
                     if !probes.is_empty() {
@@ -881,7 +913,7 @@ pub fn miri_main(args: &[String]) -> i32 {
                     }
                     // 3. one systematic pass over every API kind
                     let answers = batches[me].iter().map(|j| answer_job(sh_all, j, &mut || {})).collect::<Vec<String>>();
-                    (uuid, bad, answers)
+                    (uuid, bad, answers, first_answers)
                 })
             })
             .collect();
@@ -892,7 +924,14 @@ pub fn miri_main(args: &[String]) -> i32 {
     let fresh = Shared::build(inputs).expect("fresh handles");
     let exp_uuid = api::answer_mapping(&fresh.sets[0].mapping, &Query::MapUuid);
     let mut memo: std::collections::HashMap<(usize, Target, &Query), String> = std::collections::HashMap::new();
-    for (t, (uuid, bad, answers)) in results.iter().enumerate() {
+    for (t, (uuid, bad, answers, first_answers)) in results.iter().enumerate() {
+        for (i, j) in first_use.iter().enumerate() {
+            let e = memo.entry((j.set, j.target, &j.q)).or_insert_with(|| answer_job(&fresh, j, &mut || {})).clone();
+            if e != first_answers[i] {
+                println!("MIRI-C20 VIOLATION thread={} synchronised first use: {} alone={:?} concurrent={:?}", t, j.describe(), e, first_answers[i]);
+                return 1;
+            }
+        }
         if *uuid != exp_uuid {
             println!("MIRI-C20 VIOLATION thread={} mapping.uuid() concurrent first use -> {} alone -> {}", t, uuid, exp_uuid);
             return 1;
@@ -902,14 +941,8 @@ pub fn miri_main(args: &[String]) -> i32 {
             return 1;
         }
         for (i, j) in batches[t].iter().enumerate() {
-            // each distinct job alone, on handles of its own
-            let e = memo
-                .entry((j.set, j.target, &j.q))
-                .or_insert_with(|| {
-                    let own = Shared::build(inputs).expect("fresh handles");
-                    answer_job(&own, j, &mut || {})
-                })
-                .clone();
+            // reference: a fresh handle set nobody else has touched (history dependence is D1's business)
+            let e = memo.entry((j.set, j.target, &j.q)).or_insert_with(|| answer_job(&fresh, j, &mut || {})).clone();
             d.str(&e);
             if e != answers[i] {
                 println!("MIRI-C20 VIOLATION thread={} job={} {} alone={:?} concurrent={:?}", t, i, j.describe(), e, answers[i]);
@@ -925,5 +958,58 @@ pub fn miri_main(args: &[String]) -> i32 {
         list.len(),
         d.finish()
     );
+    0
+}
+
+/// Miri "crowd" mode: many threads, few calls each, compound APIs only, deep cause chains. State
+/// that is shared by all threads *while they are inside one call* (process-wide counters, shared
+/// scratch buffers behind the text / typed stack-trace APIs) only shows when many callers overlap.
+pub fn miri_crowd(wseed: u64, n_threads: usize) -> i32 {
+    let mapping: Vec<u8> = b"com.example.Foo -> a.a:\n# {\"id\":\"sourceFile\",\"fileName\":\"Foo.kt\"}\n    1:3:void run():10:12 -> a\n    4:4:void x.Y.inl():7:7 -> a\n    4:4:void go(int):20 -> a\ncom.example.Bar -> a.b:\n    5:9:int calc(java.lang.String):30:34 -> a\n".to_vec();
+    let inputs = Inputs::new(&[mapping]).expect("inputs");
+    let inputs = &inputs;
+    let depth = 4 + (wseed % 3) as usize;
+    let mut text = String::from("a.a: top\n    at a.a.a(SourceFile:4)\n    at a.b.a(SourceFile:6)\n");
+    for d in 0..depth {
+        text.push_str(&format!("Caused by: a.{}: level {}\n    at a.a.a(SourceFile:{})\n    at q.r.s(T.java:1)\n", if d % 2 == 0 { "b" } else { "a" }, d, 1 + d % 4));
+    }
+    let jobs: Vec<Job> = vec![
+        Job { set: 0, target: Target::Cache, q: Query::TraceTyped(text.clone()) },
+        Job { set: 0, target: Target::MapperParams, q: Query::TraceTyped(text.clone()) },
+        Job { set: 0, target: Target::Cache, q: Query::TraceText(text.clone()) },
+        Job { set: 0, target: Target::Mapper, q: Query::Signature("(La/a;La/b;)La/a;".into()) },
+    ];
+    let jobs = &jobs;
+    let Some(shared) = Shared::build(inputs) else { return 2 };
+    let shared = ForceShare(shared);
+    let barrier = std::sync::Barrier::new(n_threads);
+    let barrier = &barrier;
+    let answers: Vec<Vec<String>> = std::thread::scope(|s| {
+        let hs: Vec<_> = (0..n_threads)
+            .map(|me| {
+                let shared = &shared;
+                s.spawn(move || {
+                    let sh = shared.get();
+                    barrier.wait();
+                    (0..jobs.len()).map(|k| answer_job(sh, &jobs[(k + me) % jobs.len()], &mut || {})).collect::<Vec<String>>()
+                })
+            })
+            .collect();
+        hs.into_iter().map(|h| h.join().expect("worker thread panicked")).collect()
+    });
+    let mut d = Digest::default();
+    let own = Shared::build(inputs).expect("fresh handles");
+    for (k, j) in jobs.iter().enumerate() {
+        let e = answer_job(&own, j, &mut || {});
+        d.str(&e);
+        for (t, a) in answers.iter().enumerate() {
+            let idx = (k + jobs.len() - t % jobs.len()) % jobs.len();
+            if a[idx] != e {
+                println!("MIRI-C20 VIOLATION crowd thread={} {} alone={:?} concurrent={:?}", t, j.describe(), e, a[idx]);
+                return 1;
+            }
+        }
+    }
+    println!("MIRI-C20 ok mode=crowd wseed={} threads={} cause_chain_depth={} jobs_per_thread={} answers={:016x}", wseed, n_threads, depth, jobs.len(), d.finish());
     0
 }
